@@ -414,3 +414,11 @@ def r7(rr, repo):
         ok = bool(use) and use[0].value.args and isinstance(use[0].value.args[0], ast.IfExp) and U(use[0].value.args[0].body) == 'self.recv_state' and U(use[0].value.args[0].test) == 'self.mq_msgid_sync'
         rr.ob('recv() hands self.recv_state to the receiver when mq_msgid_sync', ok, mqm, use[0].node if use else mq_recv, key='recv-state-used')
     rr.floor('receiving paths of MQ.recv', m, 1, mqm, mq_recv)
+
+
+@rule('C02.R8', 'no frame is delivered under another id: the receiver-side invariants of C01 (other sources reset on a newer id - C01.R2; per-id sets are fresh objects - C01.R8; the adopted id survives a timed-out call - C01.R9)')
+def r8(rr, repo):
+    from .c01 import r2 as c01r2, r8 as c01r8, r9 as c01r9
+    c01r2(rr, repo)
+    c01r8(rr, repo)
+    c01r9(rr, repo)
